@@ -823,6 +823,11 @@ func (a *align) TranslateByReference(phase int, geneticcode int, refseq string) 
 	var code map[string]uint8       // Genetic code
 	var newseqbuffer []bytes.Buffer // The buffers where the temp translated sequences are written
 
+	// Translation in the 3 phases (phase=-1) is not possible by reference
+	if phase < 0 {
+		err = fmt.Errorf("phase should be >= 0 for a translation by reference: %d", phase)
+		return
+	}
 	// We take the reference sequence ID from the alignment
 	if refseq == "" {
 		err = fmt.Errorf("given reference sequence is empty")
